@@ -451,6 +451,111 @@ func (e *env) annotations(idx int) error {
 	return nil
 }
 
+// annBlocks: the low-level block ingestion (POST blocks = a blind overwrite of whole element blocks, no denormalisations)
+// issued together with element edits of the same block.  Whichever order the requests take effect in, nothing deletes the
+// ingested elements: once everything is acknowledged they must be in the block (an edit that read the block before the
+// ingestion and wrote it back afterwards would drop them).
+func (e *env) annBlocks(idx int) error {
+	root, err := e.cl.NewRepo(fmt.Sprintf("annblk%d", idx))
+	if err != nil {
+		return err
+	}
+	if err := e.cl.NewInstance(root, "annotation", "syn", nil); err != nil {
+		return err
+	}
+	base := "/api/node/" + root + "/syn/"
+	used := map[[3]int]bool{}
+	fresh := func() [3]int {
+		for {
+			p := [3]int{e.r.Intn(60) + 1, e.r.Intn(60) + 1, e.r.Intn(60) + 1}
+			if !used[p] {
+				used[p] = true
+				return p
+			}
+		}
+	}
+	var preEls []map[string]interface{}
+	var pre [][3]int
+	for i := 0; i < 3; i++ {
+		p := fresh()
+		pre = append(pre, p)
+		preEls = append(preEls, map[string]interface{}{"Pos": p, "Kind": "Note", "Tags": []string{"shared"}})
+	}
+	b, _ := json.Marshal(preEls)
+	if r, err := e.w.Post(base+"elements", b); err != nil || !r.OK() {
+		return fmt.Errorf("pre-post elements: %v %v", r, err)
+	}
+	dl := e.delays()
+	var ingested [][3]int
+	var ing []map[string]interface{}
+	for i := 0; i < 2+e.r.Intn(3); i++ {
+		p := fresh()
+		ingested = append(ingested, p)
+		ing = append(ing, map[string]interface{}{"Pos": p, "Kind": "PreSyn", "Tags": []string{"ingested"}})
+	}
+	blk, _ := json.Marshal(map[string]interface{}{"0,0,0": ing})
+	var reqs []drv.Req
+	var kinds []string
+	nEdits := 2 + e.r.Intn(4)
+	at := e.r.Intn(nEdits + 1)
+	for i := 0; i <= nEdits; i++ {
+		if i == at {
+			reqs = append(reqs, drv.Req{Method: "POST", URL: base + "blocks", Body: blk})
+			kinds = append(kinds, "blocks")
+			continue
+		}
+		switch e.r.Intn(4) {
+		case 0:
+			p := pre[0]
+			reqs = append(reqs, drv.Req{Method: "DELETE", URL: fmt.Sprintf("%selement/%d_%d_%d", base, p[0], p[1], p[2])})
+			kinds = append(kinds, "delete")
+		case 1:
+			p, q := pre[1], fresh()
+			reqs = append(reqs, drv.Req{Method: "POST", URL: fmt.Sprintf("%smove/%d_%d_%d/%d_%d_%d", base, p[0], p[1], p[2], q[0], q[1], q[2])})
+			kinds = append(kinds, "move")
+		default:
+			b, _ := json.Marshal([]map[string]interface{}{{"Pos": fresh(), "Kind": "PostSyn", "Tags": []string{"shared"}}})
+			reqs = append(reqs, drv.Req{Method: "POST", URL: base + "elements", Body: b})
+			kinds = append(kinds, "post")
+		}
+	}
+	resps, err := e.w.Par(reqs)
+	if err != nil {
+		return err
+	}
+	e.w.SetDelay(0, 0, false)
+	if err := e.w.Settle(); err != nil {
+		return err
+	}
+	sig := overlapSig(resps)
+	e.c.Case(fmt.Sprintf("annblocks|%d|%s", idx, drv.Hash(sig)), true)
+	e.c.Seen("annblocks_interleaving_signatures", drv.Hash(sig))
+	e.c.Seen("delay_profiles", dl)
+	e.c.Count("annotation_block_ingest_rounds", 1)
+	if !resps[at].OK() {
+		if resps[at].Panicked() {
+			e.c.Violation("annotation:panic-under-concurrency", fmt.Sprintf("concurrent POST blocks answered %s", resps[at]), nil)
+		}
+		return nil
+	}
+	rp, err := e.w.Get(base + "elements/64_64_64/0_0_0")
+	if err != nil {
+		return err
+	}
+	got := parseEls(rp.Body)
+	var missing [][3]int
+	for _, p := range ingested {
+		if _, ok := got[p]; !ok {
+			missing = append(missing, p)
+		}
+	}
+	if len(missing) > 0 {
+		e.c.Violation("annotation:block-ingest-lost-under-concurrent-edits", fmt.Sprintf("POST blocks of %d elements into block 0,0,0 was acknowledged together with %d element edits of that block (%v, delays %s); afterwards %d of the ingested elements are not in the block although no request removes them",
+			len(ingested), nEdits, kinds, dl, len(missing)), map[string]interface{}{"kinds": kinds, "missing": missing, "overlap": sig})
+	}
+	return nil
+}
+
 // ---------- 3. labelmap merges / cleaves on one target ----------
 
 func (e *env) labelmap(idx int) error {
@@ -814,7 +919,7 @@ func batch(c *drv.Ctx, bin string, seed int64, idx int, rounds int, races bool) 
 	defer w.Kill()
 	for i := 0; i < rounds; i++ {
 		id := idx*1000 + i
-		steps := []func(int) error{e.kvRegisters, e.annotations, e.labelmap, e.neuronjson, e.versions}
+		steps := []func(int) error{e.kvRegisters, e.annotations, e.annBlocks, e.labelmap, e.neuronjson, e.versions}
 		for _, f := range steps {
 			if err := f(id); err != nil {
 				return "", fmt.Errorf("batch %d round %d: %v; stderr: %s", idx, i, err, drv.Trunc(drv.FatalInStderr(w.Stderr()), 600))
